@@ -371,6 +371,46 @@ def run_seqmeta(eng, p):
     return "ok"
 
 
+def run_rectify(eng, p):
+    """metadata written explicitly survives the writer's automatic
+    completion on close (real store_metadata + rectify_metadata): the
+    fluorescence channel count is only derived when it was not given"""
+    from vf import symh5
+    from vf.dcsym import build_class
+    from vf.symnp import SArr
+    Wr = build_class("dclab.rtdc_dataset.writer", "RTDCWriter", h5py=symh5)
+    f = symh5.File("a.rtdc", "w")
+    given = bool(eng.bool("count_given"))
+    cnt = eng.int("count")
+    eng.assume((cnt >= 1) & (cnt <= 3))
+    present = [bool(eng.bool("has_fl%d_max" % k)) for k in (1, 2, 3)]
+    with quiet():
+        hw = Wr(f)
+        ev = f.require_group("events")
+        ev.create_dataset("deform", data=SArr([0.1, 0.2], float))
+        for k, h in zip((1, 2, 3), present):
+            if h:
+                ev.create_dataset("fl%d_max" % k, data=SArr([1., 2.], float))
+        if given:
+            hw.store_metadata({"fluorescence": {"channel count": cnt}})
+        hw.rectify_metadata()
+    key = "fluorescence:channel count"
+    if given:
+        eng.prove(z3.BoolVal(key in f.attrs) if key not in f.attrs else
+                  toint(f.attrs[key]) == cnt.e,
+                  "an explicitly stored channel count is kept by "
+                  "rectify_metadata",
+                  info={"flN_max features present": present})
+    elif any(present):
+        eng.prove(z3.BoolVal(key in f.attrs and
+                             int(f.attrs[key]) == sum(present)),
+                  "a missing channel count is derived from the flN_max "
+                  "features")
+    eng.prove(z3.BoolVal(int(f.attrs["experiment:event count"]) == 2),
+              "event count == stored events")
+    return "ok"
+
+
 def run_fintlist(eng, p):
     ns = shadow(MP, float=FLOAT_T, int=INT_T, bool=BOOL_T)
     n = p["n"]
@@ -448,6 +488,8 @@ def run_case(name, params):
     eng = Engine(timeout_ms=20000)
     if params["kind"] == "seqmeta":
         eng.explore(lambda e: run_seqmeta(e, params))
+    elif params["kind"] == "rectify":
+        eng.explore(lambda e: run_rectify(e, params))
     elif params["kind"] == "cfgfile":
         eng.explore(lambda e: run_cfgfile(e, params))
     elif params["kind"] == "conv":
@@ -483,6 +525,8 @@ def cases(tier, seed):
             for as_ in ("array", "list"):
                 out.append(("user sequence n=%d %s %s" % (n, vt, as_),
                             dict(kind="seqmeta", n=n, vtype=vt, **{"as": as_})))
+    out.append(("explicit channel count vs. automatic completion",
+                dict(kind="rectify")))
     for sec, key in (("user", "batch"), ("setup", "identifier"),
                      ("experiment", "sample")):
         if sec == "experiment" and tier == "quick":
@@ -519,6 +563,37 @@ def replay(case, params, v):
                     "detail": det}
         return {"reproduced": True,
                 "key": "%s|%s" % (params["name"], _norm(call)), "detail": det}
+    if params["kind"] == "rectify":
+        import tempfile
+        import h5py
+        import dclab.rtdc_dataset.writer as Wm
+        cnt = int(vals.get("count", 3))
+        given = bool(vals.get("count_given", False))
+        present = [bool(vals.get("has_fl%d_max" % k, False))
+                   for k in (1, 2, 3)]
+        with tempfile.TemporaryDirectory(prefix="verif_c11_") as td, quiet():
+            pth = os.path.join(td, "m.rtdc")
+            with Wm.RTDCWriter(pth, mode="reset") as hw:
+                hw.store_feature("deform", np.linspace(.1, .2, 2))
+                for k, h in zip((1, 2, 3), present):
+                    if h:
+                        hw.store_feature("fl%d_max" % k, np.arange(2) + 1.)
+                if given:
+                    hw.store_metadata({"fluorescence":
+                                       {"channel count": cnt}})
+            with h5py.File(pth, "r") as h:
+                got = h.attrs.get("fluorescence:channel count")
+        want = cnt if given else (sum(present) or None)
+        if (got is None) != (want is None) or (
+                got is not None and int(got) != want):
+            return {"reproduced": True,
+                    "key": "rectify_metadata|channel-count",
+                    "detail": "[fluorescence] channel count %s, flN_max "
+                    "features present %r: the closed file holds %r, expected "
+                    "%r" % ("stored as %d" % cnt if given else "not given",
+                            present, got, want)}
+        return {"reproduced": False, "key": "not-reproduced",
+                "detail": "channel count %r as expected" % (got,)}
     if params["kind"] == "seqmeta":
         import tempfile
         import dclab
